@@ -116,6 +116,11 @@ def handleSpecial (stream : String) (args : List String) : String :=
     | some bs => showRes (runS (fun a => Ice.turnPacket a (known = "1")) bs)
         (fun r => match r with | [_, 2, len] => s!"fwd {len}" | _ => "nofwd")
     | none => "bad-hex"
+  | "sharedtcp", [hx] =>
+    match unhex hx with
+    | some bs => showRes (runB Ice.sharedTcpFirstFrame bs) toString
+    | none => "bad-hex"
+  | "sharedtcp", [] => showRes (runB Ice.sharedTcpFirstFrame []) toString
   | "tcp4571", [bl, hx] =>
     match bl.toNat?, unhex hx with
     | some bl, some bs => showRes (runB (Ice.tcp4571Recv bl) bs) toString
@@ -134,11 +139,9 @@ def handleSpecial (stream : String) (args : List String) : String :=
   | "sctpassoc", role :: seedT :: pks =>
     match pks.mapM parseSctpPkt with
     | some ps =>
-      -- role: bit 0 = client (own INIT sent, T1 running); bit 1 = the association starts Closed (as left by a dropped runner)
-      let st0 := if role = "2" ∨ role = "3" then 2 else 0
+      -- role 1 = client (own INIT sent, T1 running)
       let seed := seedT.toNat?.getD 0
-      let s0 : SctpSt.St := if role = "1" ∨ role = "3" then { t1 := 1, hasTag := true, state := st0, seed := seed, nextTsn := seed }
-                            else { state := st0, seed := seed }
+      let s0 : SctpSt.St := if role = "1" then { t1 := 1, hasTag := true, seed := seed, nextTsn := seed } else { seed := seed }
       match SctpSt.runHistory s0 ps (Buf.ofList []) 0 with
       | .ok ds _ _ => "ok " ++ " ".intercalate (ds.map fun d => "/".intercalate (d.map nats))
       | .err e _ => "err " ++ e
@@ -181,6 +184,9 @@ def handleSpecial (stream : String) (args : List String) : String :=
   | "hpktbuf", _ => "noncompared"
   | "rtcpmarshal", _ => "noncompared"
   | "sctpflood", _ => "noncompared"
+  | "rtprecv", _ => "noncompared"
+  | "rtpflood", _ => "noncompared"
+  | "iceflood", _ => "noncompared"
   | "mediaflood", _ => "noncompared"
   | "turnclient", _ => "noncompared"
   | "sdpsdes", _ => "noncompared"
